@@ -79,6 +79,7 @@ structure World where
   cmdHold : Bool := false
   protoHold : Bool := false
   heldConns : List Nat := []                -- connections established while the protocol loop is held
+  heldPipePeer : Option Nat := none         -- the one peer whose remote side acts while the protocol loop is held
   protoGone : Bool := false
   obsOrders : List (List Nat) := []         -- checker mode: set orders observed on the implementation
   orders : List String := []
@@ -622,7 +623,7 @@ def step (w : World) (lineObs : String) : World × String :=
   match ts with
   | ["shutdown"] => shutdownOp w
   | ["phold"] => ({ w with protoHold := true }, "ok")
-  | ["prelease"] => run { w with protoHold := false, heldConns := [] } "ok"
+  | ["prelease"] => run { w with protoHold := false, heldConns := [], heldPipePeer := none } "ok"
   | ["cmdhold"] => ({ w with cmdHold := true }, "ok")
   | ["cmdfill"] =>
     let n := cmdCap - w.userQ.length
@@ -716,6 +717,10 @@ where stepPeer (w : World) (ts : List String) : World × String :=
         match findPipe w p (role = "in") age with
         | none => (w, "ignored")
         | some k =>
+          let blocked := w.protoHold && ["hs", "rclose", "rreset", "rsend"].contains op &&
+            (match w.heldPipePeer with | some q => q ≠ p | none => false)
+          if blocked then (w, "ignored") else
+          let w := if w.protoHold && ["hs", "rclose", "rreset", "rsend"].contains op then { w with heldPipePeer := some p } else w
           if op = "hs" then
             run (wakeTasksOfPipe (pipeSet w k fun x => { x with toLocal := x.toLocal ++ [[0xaa, k % 256]] }) k) "ok"
           else if op = "rclose" then
@@ -742,6 +747,8 @@ where stepPeer (w : World) (ts : List String) : World × String :=
         if role ≠ "in" && role ≠ "out" then (w, "bad-op") else
         let d : Dir := if role = "in" then .inbound else .outbound
         if w.hsE.any (fun h => h.peer = p && h.dir = d) then
+          if w.protoHold && (match w.heldPipePeer with | some q => q ≠ p | none => false) then (w, "ignored") else
+          let w := if w.protoHold then { w with heldPipePeer := some p } else w
           run { w with hsE := w.hsE.map fun h => if h.peer = p && h.dir = d then { h with expired := true } else h } "ok"
         else (w, "ignored")
       | _ => (w, "bad-op")
